@@ -2,6 +2,7 @@ package harness
 
 import (
 	"context"
+	"fmt"
 	"runtime"
 	"time"
 
@@ -152,15 +153,17 @@ func c02Run() {
 	for i := range sharedProgs {
 		for n := simrt.DrawRange(1, 6); n > 0; n-- {
 			op := txnOp{pause: drawPause(), cancelAt: simrt.DrawRange(0, 6), goexitAt: -1}
-			switch x := simrt.Draw(8); {
+			switch x := simrt.Draw(9); {
 			case x < 4:
 				op.kind = 0
 			case x < 6:
 				op.kind = 1
 			case x < 7:
 				op.kind = 2
-			default:
+			case x < 8:
 				op.kind = 3
+			default:
+				op.kind = 4 // a one-value Range on the shared consumer
 			}
 			sharedProgs[i] = append(sharedProgs[i], op)
 		}
@@ -291,6 +294,44 @@ func c02Run() {
 					op.pause.do(r.unit)
 					var o *bufOp
 					switch op.kind {
+					case 4:
+						// package Range for one value: Get, callback, Commit. Seen from outside: a get that
+						// ended by the time the callback started, a commit that began when the callback
+						// returned (both brackets are wider than the calls, which keeps the check sound)
+						simrt.Probe("range_on_shared_consumer")
+						start := simrt.Stamp()
+						var cbIn, cbOut int64
+						var val Val
+						called, known := false, true
+						err := bigbuff.Range(r.stop, sk.c, func(_ int, x interface{}) bool {
+							cbIn = simrt.Stamp()
+							called = true
+							val, known = asVal(x)
+							cbOut = simrt.Stamp()
+							return false
+						})
+						end := simrt.Stamp()
+						if !known {
+							simrt.Failf("C02.invented-value", "Range on the shared consumer delivered a value nobody put")
+							return
+						}
+						if !called {
+							if r.stopInv == 0 {
+								simrt.Failf("C02.get-error", "shared consumer: Range failed (%v) before delivering anything, without any cancellation under the default cleaner", err)
+								return
+							}
+							// Range answers a failed Get with a Rollback (of whatever the shared transaction holds)
+							sharedOps = append(sharedOps, oracle.Op{Client: ti, In: "get", Out: c02Out{ok: false}, Call: start, Return: end})
+							sharedOps = append(sharedOps, oracle.Op{Client: ti, In: "rollback-any", Out: c02Out{}, Call: start, Return: end})
+							continue
+						}
+						sharedOps = append(sharedOps, oracle.Op{Client: ti, In: "get", Out: c02Out{ok: true, v: val}, Call: start, Return: cbIn})
+						sharedOps = append(sharedOps, oracle.Op{Client: ti, In: "commit", Out: c02Out{ok: err == nil}, Call: cbOut, Return: end})
+						if err != nil {
+							// ... and a failed Commit likewise
+							sharedOps = append(sharedOps, oracle.Op{Client: ti, In: "rollback-any", Out: c02Out{}, Call: cbOut, Return: end})
+						}
+						continue
 					case 0:
 						o = r.get(sk, -1)
 					case 3:
@@ -595,6 +636,8 @@ func c02Post(data any) (string, string, bool) {
 						return false, s
 					}
 					return true, st{s.c, 0}
+				case "rollback-any": // a Rollback whose result nobody saw (made by Range on its way out)
+					return true, st{s.c, 0}
 				}
 				return false, s
 			},
@@ -605,7 +648,19 @@ func c02Post(data any) (string, string, bool) {
 			return "", "", true
 		}
 		if !ok {
-			return "C02.shared-not-linearizable", "the Get/Commit/Rollback history of a consumer shared by several goroutines has no sequential explanation consistent with real time", false
+			msg := "the Get/Commit/Rollback history of a consumer shared by several goroutines has no sequential explanation consistent with real time:"
+			for i, op := range h.ops {
+				if i >= 40 {
+					break
+				}
+				o := op.Out.(c02Out)
+				pos := -1
+				if o.ok && op.In.(string) == "get" {
+					pos = h.pos[o.v] - h.base
+				}
+				msg += fmt.Sprintf("\n  task %d %s ok=%v pos=%d [%d,%d]", op.Client, op.In, o.ok, pos, op.Call, op.Return)
+			}
+			return "C02.shared-not-linearizable", msg, false
 		}
 	}
 	return "", "", false
